@@ -108,7 +108,7 @@ FLOORS = {
               'f:TRUNC': 30000, 'f:INT': 5000, 'f:MOD': 20000, 'f:CEILING': 10000, 'f:FLOOR': 10000,
               'f:CEILING.MATH': 10000, 'f:FLOOR.MATH': 10000, 'f:CEILING.PRECISE': 5000,
               'f:FLOOR.PRECISE': 5000, 'f:EVEN': 5000, 'f:ODD': 5000,
-              'round:tie': 20000, 'round:tie:digits<0': 1500, 'round:tie:digits=0': 1500,
+              'round:far-digits': 70, 'round:tie': 20000, 'round:tie:digits<0': 1500, 'round:tie:digits=0': 1500,
               'round:tie:digits>0': 10000, 'round:near-tie': 30000, 'round:multiple': 20000,
               'round:bracket-checked': 40000, 'round:fixpoint-checked': 10000,
               'family:exact-multiple': 10000, 'family:non-dyadic-significance': 10000,
@@ -660,6 +660,22 @@ def numpy_numbers(mon, part):
                             mon.observe(F, args)
 
 
+FAR_DIGITS = [(1.26e-25, 26), (1.5e-30, 31), (1.26e25, -24), (1.25e-24, 25), (3.5e23, -23), (2.5e-23, 23), (7.77e24, -23),
+              (-1.26e-25, 26), (-3.5e23, -23), (4.4e-27, 27), (9.99e-26, 27),
+              # more digits asked for than the number has: it is a multiple already
+              (123.456, 25), (1e20, 10), (1.5e10, 20), (1e15 + 0.5, 12), (-1e20, 10), (2.5, 30), (1e22, 7), (12345678.5, 23)]
+
+
+def far_digits(mon, part):
+    """digits beyond the powers of ten a double holds exactly (|d| > 22) on numbers of that magnitude, and more digits
+    than the number has (the quantum is finer than its last digit)"""
+    for F in sorted(ROUNDERS):
+        for x, d in FAR_DIGITS:
+            if part.take():
+                mon.ctx.count('round:far-digits')
+                mon.observe(F, [x, d])
+
+
 # ---- seeded samples
 
 def sample_decimal(rng):
@@ -766,6 +782,7 @@ def run(ctx):
         one_sample(mon, rng)
     coercions(mon, part)
     numpy_numbers(mon, part)
+    far_digits(mon, part)
     mon.flush()
     # ... and what is left of the budget goes into more samples
     n = 0
